@@ -198,8 +198,13 @@ func c07Check(in modInput) string {
 	}
 	if len(in.Conflicts) > 1 {
 		// simultaneous conflicts can mask one another (a duplicate definition that is dropped takes its relations
-		// with it), so per-conflict blame is only demanded for a single injected conflict
-		return ""
+		// with it), so per-conflict blame is only demanded for a single injected conflict - and for several
+		// re-definitions of types, which are all found in the first pass over the files and cannot mask one another
+		for _, cf := range in.Conflicts {
+			if cf.Kind != "duplicate-type-across" {
+				return ""
+			}
+		}
 	}
 	for _, cf := range in.Conflicts {
 		if cf.Kind == "syntax-error" {
@@ -316,7 +321,7 @@ func TestC07(t *testing.T) {
 		rec.Require("conflict:"+k, 0.02)
 	}
 	rapid.Check(t, func(rt *rapid.T) {
-		ms := gen.Modules(rt, gen.ModOpts{MaxConflicts: 2, Layout: true, CaseNames: true})
+		ms := gen.Modules(rt, gen.ModOpts{MaxConflicts: 2, Layout: true, CaseNames: true, Twice: true, EmptySelfExt: true, GlueNames: true})
 		in := modInputOf(ms)
 		cls, _, nt := modClasses(ms)
 		var sample any
